@@ -13,6 +13,7 @@ func extractAll(repo string, o *out) {
 	extractToxics(repo, o)
 	extractLink(repo, o)
 	extractAPI(repo, o)
+	extractClient(repo, o)
 }
 
 // emit writes  Definition name params : ty := body.  or, when body is empty, the last-known value.
